@@ -3,7 +3,7 @@
    try_zeroed family of Model/Alloc.v over an allocator that may fail.  The bytes themselves come
    from alloc_zeroed / write_bytes and are observed by the harness on memory pre-filled with 0xA5. *)
 From Coq Require Import NArith List Bool String.
-From BM Require Import Base.Outcome Base.Prims Base.Own Base.Layout Model.Alloc Model.ZeroGuard Proofs.AllocProofs Proofs.AllocGen.
+From BM Require Import Base.Outcome Base.Prims Base.Own Base.Layout Model.Alloc Model.ZeroGuard Proofs.AllocProofs Proofs.AllocGenZero.
 From BM.Gen Require Alloc.
 Import ListNotations.
 
